@@ -3,6 +3,8 @@ package rules
 import (
 	"fmt"
 	"go/token"
+	"go/types"
+	"strings"
 
 	"golang.org/x/tools/go/ssa"
 
@@ -226,34 +228,63 @@ func RuleF7(c *Ctx) {
 		c.Saw(core.FnName(fn))
 		nw := c.f7one(fn, "sha256.New()", staticIs("crypto/sha256", "", "New"))
 		w := c.f7one(fn, "digest.Write(label)", invokeIs("Write"))
-		nb := c.f7one(fn, "bytes.NewBuffer", staticIs("bytes", "", "NewBuffer"))
-		if nw != nil && w != nil && nb != nil {
+		// the pending buffer: bytes.NewBuffer over an empty slice, or a zero-value bytes.Buffer that nothing writes before it is stored
+		var nbVal ssa.Value
+		empty := false
+		nbCalls := findCalls(fn, staticIs("bytes", "", "NewBuffer"))
+		core.AllInstrs(fn, func(i ssa.Instruction) {
+			if st, isStore := i.(*ssa.Store); isStore {
+				if fa, isFA := st.Addr.(*ssa.FieldAddr); isFA && fa.Field == 1 {
+					if _, isT := fa.X.Type().Underlying().(*types.Pointer); isT && strings.HasSuffix(fa.X.Type().String(), "common.Transcript") {
+						nbVal = st.Val
+					}
+				}
+			}
+		})
+		switch x := nbVal.(type) {
+		case *ssa.Call:
+			if len(nbCalls) == 1 && nbCalls[0] == ssa.CallInstruction(x) {
+				arg := x.Call.Args[0]
+				if sl, isSlice := arg.(*ssa.Slice); isSlice && sl.High != nil {
+					if k, isK := core.ConstInt(sl.High); isK && k == 0 {
+						empty = true
+					}
+				}
+				if ms, isMS := arg.(*ssa.MakeSlice); isMS {
+					if k, isK := core.ConstInt(ms.Len); isK && k == 0 {
+						empty = true
+					}
+				}
+			}
+		case *ssa.Alloc:
+			// &bytes.Buffer{} / new(bytes.Buffer): zero value is an empty buffer; its only use must be the store into the transcript
+			if strings.HasSuffix(x.Type().String(), "*bytes.Buffer") && len(nbCalls) == 0 {
+				empty = true
+				for _, r := range *x.Referrers() {
+					if st, isStore := r.(*ssa.Store); isStore && st.Val == ssa.Value(x) {
+						continue
+					}
+					if _, isDbg := r.(*ssa.DebugRef); isDbg {
+						continue
+					}
+					empty = false
+				}
+			}
+		}
+		if nbVal == nil {
+			c.Bad("F7", "common.NewTranscript:buffer", fn.Pos(), "NewTranscript never stores a pending buffer into the transcript it returns")
+		}
+		if nw != nil && w != nil && nbVal != nil {
 			ok := w.Common().Value == nw.(ssa.Value) && core.FlowsTo(fn.Params[0], w.Common().Args[0], nil)
-			var stState, stBuff bool
+			var stState bool
+			stBuff := true
 			core.AllInstrs(fn, func(i ssa.Instruction) {
 				if st, isStore := i.(*ssa.Store); isStore {
-					if fa, isFA := st.Addr.(*ssa.FieldAddr); isFA {
-						switch fa.Field {
-						case 0:
-							stState = st.Val == nw.(ssa.Value)
-						case 1:
-							stBuff = st.Val == nb.(ssa.Value)
-						}
+					if fa, isFA := st.Addr.(*ssa.FieldAddr); isFA && fa.Field == 0 && strings.HasSuffix(fa.X.Type().String(), "common.Transcript") {
+						stState = st.Val == nw.(ssa.Value)
 					}
 				}
 			})
-			// the initial buffer must be empty: bytes.NewBuffer over a zero-length slice
-			empty := false
-			if sl, isSlice := nb.Common().Args[0].(*ssa.Slice); isSlice && sl.High != nil {
-				if k, isK := core.ConstInt(sl.High); isK && k == 0 {
-					empty = true
-				}
-			}
-			if ms, isMS := nb.Common().Args[0].(*ssa.MakeSlice); isMS {
-				if k, isK := core.ConstInt(ms.Len); isK && k == 0 {
-					empty = true
-				}
-			}
 			c.Check(ok && stState && stBuff && empty, "F7", "NewTranscript:label-first", fn.Pos(), "NewTranscript must hash the protocol label into the state it stores, and start with an empty pending buffer",
 				"state = sha256.New() after Write(label)", "buff = empty bytes.Buffer")
 			count()
